@@ -58,6 +58,7 @@ def run(ctx, res):
     ev = APE.run(prog, cg, seek, bound=1)
     res.floor("C05.R2", 4)
     res.floor("C05.R3", 2)
+    res.floor("C05.R4", 2)
     n_back = n_fwd = 0
     for p in ev.paths:
         evs = [e for e in p.events if e.kind != "branch"]
@@ -108,6 +109,18 @@ def run(ctx, res):
                     res.check(GT not in c, "C05.R2", site(seek, "cmp(target,head):stop"),
                               "forward loop stops only when the head is at or beyond the target",
                               "forward loop stops with a head still before the target", seek.loc(e.node), p.describe(seek))
+        if p.end == "exit" and not reseek_all:
+            moved = [e for e in evs if e.kind == "call" and e.a in ("mtbl_iter_seek", "heap_pop", "heap_replace")]
+            if moved:
+                last = evs.index(moved[-1])
+                rec = [e for e in evs[last:] if e.kind == "call" and e.a == "ubuf_append" and canon(call_args(e.node)[0]).endswith("->cur_key")
+                       and e.b[1] == ("s", seek.params[1]["name"]) and e.b[2] == ("s", seek.params[2]["name"])]
+                clip = [e for e in evs[last:] if e.kind == "call" and e.a in ("ubuf_clip", "ubuf_reset") and canon(call_args(e.node)[0]).endswith("->cur_key")]
+                res.check(len(rec) == 1 and clip and evs.index(clip[0]) < evs.index(rec[0]), "C05.R4", site(seek, "forward-seek-records-target"),
+                          "a forward seek that repositioned or dropped any head records the target as the reference key for later backward detection",
+                          "a forward seek repositions or drops a source (%s) without recording the seek key: a later seek to a key between the last returned key "
+                          "and this target is taken for a forward seek and the dropped source's entries are lost" % sorted(set(e.a for e in moved)),
+                          seek.loc(moved[-1].node), p.describe(seek))
         if p.end == "exit":
             first = [e for e in evs if not (e.kind == "store" and e.a.isidentifier())][:2]
             keys = sorted(e.a.split("->")[-1] for e in first if e.kind == "store")
